@@ -162,6 +162,17 @@ Proof.
 Qed.
 Print Assumptions C17_spacing_powers.
 
+(* the spacing divisor of d/dx_a is spacing_a, of d2/dx_a dx_b spacing_a * spacing_b, in EVERY derivative mode
+   of spatial_derivatives (anisotropic spacing; traced with the data operators as the identity) *)
+Theorem C17_spacing_divisor_every_mode :
+  forall (K : fld), is_field K -> forall h0 h1 h2 x : K, h0 <> 0 -> h1 <> 0 -> h2 <> 0 ->
+  gen_sd_forward h0 h1 h2 x = sd_spec h0 h1 h2 x /\ gen_sd_backward h0 h1 h2 x = sd_spec h0 h1 h2 x /\
+  gen_sd_central h0 h1 h2 x = sd_spec h0 h1 h2 x /\ gen_sd_forward_central_backward h0 h1 h2 x = sd_spec h0 h1 h2 x /\
+  gen_sd_prewitt h0 h1 h2 x = sd_spec h0 h1 h2 x /\ gen_sd_sobel h0 h1 h2 x = sd_spec h0 h1 h2 x /\
+  gen_sd_gaussian h0 h1 h2 x = sd_spec h0 h1 h2 x /\ gen_sd_bspline h0 h1 h2 x = sd_spec h0 h1 h2 x.
+Proof. exact spacing_divisors_ok. Qed.
+Print Assumptions C17_spacing_divisor_every_mode.
+
 (* 'sum' / 'mean' are the sum / mean over the lattice of 'none'; a loss constant on the lattice has that mean *)
 Theorem C17_reductions :
   forall (K : fld), is_field K -> char0 K -> forall sh (f : idx -> K),
